@@ -439,6 +439,16 @@ def check_packet_error_class(ctx):
                         protected = True
                     cur = cur_p
                 num_sites.append((f_, n, protected))
+            elif isinstance(n, ast.JoinedStr) and any(isinstance(v, ast.FormattedValue) and v.format_spec is not None and
+                                                     ''.join(x.value for x in v.format_spec.values if isinstance(x, ast.Constant))[-1:] in tuple('dxXob')
+                                                     and (isinstance(v.value, ast.Name) and ('offset' in v.value.id or v.value.id in offset_vars)) for v in n.values):
+                cur, protected = n, False
+                while id(cur) in par_:
+                    cur_p = par_[id(cur)]
+                    if isinstance(cur_p, ast.Try) and cur in cur_p.body and any(h.type is None or any(t in unparse(h.type) for t in ('TypeError', 'ValueError', 'Exception')) for h in cur_p.handlers):
+                        protected = True
+                    cur = cur_p
+                num_sites.append((f_, n, protected))
     up = repo.cls('Packet').methods.get('unpack')
     validated = False
     if up is not None:
